@@ -509,7 +509,7 @@ class _RuleDenoter:
         return v
 
     def copyctx(self, ctx):
-        return {"prem": list(ctx["prem"]), "ren": dict(ctx["ren"]), "fterms": dict(ctx["fterms"]),
+        return {"prem": [dict(a) for a in ctx["prem"]], "ren": dict(ctx["ren"]), "fterms": dict(ctx["fterms"]),
                 "cc": ctx["cc"], "occ": set(ctx["occ"]), "eqs": list(ctx["eqs"]), "vars": set(ctx["vars"])}
 
     def note_terms(self, ctx, terms):
@@ -539,19 +539,64 @@ class _RuleDenoter:
         return any(cc.find(o) == cc.find(h) for o in ctx["occ"])
 
     def stmts(self, stmts, ctx):
-        for s in stmts:
+        """Statements are denoted along the control-flow graph of the rule (eqlog.eql, `cfg_edge_fork` /
+        `cfg_edge_join`): a branch/match statement forks into its blocks and the end of *every* block is
+        joined to the statement that follows, so the rest of the rule is denoted once per block, under
+        everything that block queried and asserted; variables introduced inside a block are not in scope
+        after it."""
+        for i, s in enumerate(stmts):
             if s[0] == "if":
                 self.if_stmt(s[1], ctx)
             elif s[0] == "then":
                 self.then_stmt(s[1], ctx)
-            elif s[0] == "branch":
-                for b in s[1]:
-                    self.stmts(b, self.copyctx(ctx))
-            elif s[0] == "match":
-                for pat, body in s[2]:
+            elif s[0] in ("branch", "match"):
+                rest = stmts[i + 1:]
+                blocks = s[1] if s[0] == "branch" else [b for _, b in s[2]]
+                pats = [None] * len(blocks) if s[0] == "branch" else [p for p, _ in s[2]]
+                for pat, b in zip(pats, blocks):
                     c = self.copyctx(ctx)
-                    self.if_stmt(("eq", s[1], pat), c)
-                    self.stmts(body, c)
+                    if pat is not None:
+                        self.if_stmt(("eq", s[1], pat), c)
+                    self.stmts(b, c)
+                    if rest:
+                        self.leave_scope(ctx, c)
+                        self.stmts(rest, c)
+                return
+
+    def leave_scope(self, outer, c):
+        """hide the variables that were introduced inside a block: their atoms stay (they hold along
+        this control-flow path), their names become anonymous"""
+        def names(occ):
+            out = set()
+
+            def go(h):
+                if h[0] == "var":
+                    out.add(h[1])
+                elif h[0] == "app":
+                    for a in h[2]:
+                        go(a)
+            for h in occ:
+                go(h)
+            return out
+        local = names(c["occ"]) - names(outer["occ"])
+        sub_src = {}
+        for n in sorted(local):
+            flat = c["ren"].pop(n, n)
+            self.fresh += 1
+            hidden = f"_h{self.fresh}_{n}"
+            sub_src[n] = hidden
+            if flat == n and flat not in outer["vars"]:
+                self.rename(c, flat, hidden)
+                c["ren"].pop(flat, None)
+
+        def hs(h):
+            if h[0] == "var":
+                return ("var", sub_src.get(h[1], h[1]))
+            if h[0] == "app":
+                return ("app", h[1], tuple(hs(a) for a in h[2]))
+            return h
+        c["occ"] = {hs(h) for h in c["occ"]}
+        c["eqs"] = [(hs(a), hs(b)) for a, b in c["eqs"]]
 
     def if_stmt(self, a, ctx):
         prem = ctx["prem"]
